@@ -24,14 +24,17 @@
                             (wrong password, unknown pool, pool down: [startup] returns Err, no ClientStats)
                                                                                                     = [Login c p false]
     src/client.rs:879       [self.stats.register(..)] first thing in [handle()]                     = [HandleStart]
-    src/client.rs:1086      [self.stats.waiting()], src/pool.rs:781 again inside [pool.get]         = [CheckoutStart]
+    src/client.rs           [self.stats.waiting()] right before [pool.get]                           = [CheckoutStart]
+    src/pool.rs (b38aae6)   [while !candidates.is_empty() { client_stats.waiting(); ...]: waiting() runs at the
+                            START OF EVERY ITERATION of the candidate loop (=> Waiting)               = [CandidateTry]
+                            a banned candidate that is not unbanned: [continue] (after that waiting()) = [CandidateSkip]
     src/pool.rs:810-819     bb8 [get] fails for a candidate: [ban(FailedCheckout)] (replica only: [ban_error],
                             [address.stats.error()]), [address.stats.error()], [checkout_error()] (=> Idle),
-                            then the loop goes on with the NEXT candidate                            = [CandidateFail c a false]
+                            then [continue]: the next iteration (if any) starts with [CandidateTry]   = [CandidateFail c a false]
     src/pool.rs:875         health check: [server.stats().tested()]                                 = [TestServer]
     src/pool.rs:914-918     failed health check: [mark_bad], [ban(FailedHealthCheck)]                = [CandidateFail c a true]
     src/pool.rs:835-840,849-854, src/client.rs:1172  checkout success: client Active, server Active = [CheckoutOk]
-    src/pool.rs:861, src/client.rs:1103  no candidate left: [checkout_error()], [self.stats.idle()] = [CheckoutGiveUp]
+    src/pool.rs:861, src/client.rs:1103  after the loop: [checkout_error()] (=> Idle), [self.stats.idle()] = [CheckoutGiveUp]
     src/client.rs:2087-2091 [client_stats.query()], [server.stats().query(..)] after each request cycle
                             ([send_and_receive_loop]: every 'Q', every 'S' that reaches the server)  = [QueryDone]
     src/client.rs:1308-1313,1572-1577,1648-1653  [!server.in_transaction()] after a cycle:
@@ -44,10 +47,10 @@
     src/client.rs:290-292   [if result.is_err() { client.stats.disconnect(); }] (also 181-183, 233-235, 319-321; 1216)          = [ExitErr c srvfail]
                             [srvfail]: the error came from the server side ([pool.ban(.., Some(client_stats))] in
                             send_server_message / receive_server_message: replica => [address.stats.error()])
-    (no line)               a panic inside [handle()] unwinds through [client_entrypoint]: neither
-                            [disconnect()] runs; tokio drops the task's future                      = [ExitPanic]
-    src/client.rs:2158-2173 [Drop for Client] (runs on every exit, panic included): if [connected_to_server],
-                            the last server's stats are set Idle
+    (no line)               a panic inside [handle()] unwinds through [client_entrypoint]: neither of those
+                            [disconnect()] calls runs; tokio drops the task's future                = [ExitPanic]
+    src/client.rs (ca5e3a4) [Drop for Client] (runs on every exit, panic included): [self.stats.disconnect()]
+                            (idempotent), then, if [connected_to_server], the last server's stats are set Idle
     src/pool.rs:1203-1208   [ServerPool::connect]: [ServerStats::new], [register] (=> Login)          = [ServerConnect]
     src/pool.rs:1237        startup done: [stats.idle()]                                             = [ServerReady]
     src/pool.rs:1241, src/server.rs:1547-1555  startup failed / [Drop for Server]: [stats.disconnect()] = [ServerDrop]
@@ -63,7 +66,7 @@
     client and is assumed away (trusted base).
 
     Ground truth vs. registry: per client the record holds what is TRUE ([c_phase]: is its task inside
-    [handle()]; [c_chk]: is it inside [pool.get]; [c_held]: which server it owns) next to the contents of
+    [handle()]; [c_chk]: is it inside [pool.get]; [c_iter]: is it blocked on one candidate there; [c_held]: which server it owns) next to the contents of
     its [ClientStats] object ([c_state], counters); [creg] is the key set of CLIENT_STATS.  Likewise for
     servers ([s_live]: the [Server] object exists; [s_holder]) and [sreg].  Rows of dropped server
     connections stay in [sv] (as a ledger) but leave [sreg]. *)
@@ -80,6 +83,7 @@ Record client : Type := mkC {
   c_pool : nat;            (* 0 = admin database (pgcat/pgbouncer): never a configured pool *)
   c_phase : phase;
   c_chk : bool;            (* inside pool.get (between CheckoutStart and CheckoutOk/GiveUp) *)
+  c_iter : bool;           (* inside one iteration of pool.get's candidate loop: blocked on that candidate *)
   c_held : option nat;     (* the server connection it owns *)
   c_state : cstate;        (* ClientStats.state *)
   c_xact : nat; c_query : nat; c_err : nat }.
@@ -107,7 +111,7 @@ Record st : Type := mkSt {
   sreg : list nat;                          (* keys of SERVER_STATS *)
   at_ : nat -> atot }.
 
-Definition c0 : client := mkC 0 PNone false None CIdle 0 0 0.
+Definition c0 : client := mkC 0 PNone false false None CIdle 0 0 0.
 Definition s0 : server := mkS 0 false false None SLogin 0 0 0 0.
 Definition a0 : atot := mkA 0 0 0 0 0.
 Definition init : st := mkSt (fun _ => c0) [] (fun _ => s0) [] [] [] (fun _ => a0).
@@ -124,6 +128,8 @@ Inductive op : Type :=
 | Login (c p : nat) (ok : bool)
 | HandleStart (c : nat)
 | CheckoutStart (c : nat)
+| CandidateTry (c : nat)
+| CandidateSkip (c : nat)
 | TestServer (s : nat)
 | CandidateFail (c a : nat) (healthcheck : bool)
 | CheckoutOk (c s : nat)
@@ -153,11 +159,13 @@ Definition enabled (cf : cfg) (t : st) (o : op) : bool :=
   | CheckoutStart c => let x := cl t c in
       is_phase (c_phase x) PHandle && negb (c_chk x) && is_none (c_held x) && negb (c_pool x =? 0)
   | TestServer s => let y := sv t s in s_live y && is_none (s_holder y) && negb (is_login (s_state y))
-  | CandidateFail c a _ => let x := cl t c in is_phase (c_phase x) PHandle && c_chk x
+  | CandidateTry c => let x := cl t c in is_phase (c_phase x) PHandle && c_chk x && negb (c_iter x)
+  | CandidateSkip c => let x := cl t c in is_phase (c_phase x) PHandle && c_chk x && c_iter x
+  | CandidateFail c a _ => let x := cl t c in is_phase (c_phase x) PHandle && c_chk x && c_iter x
   | CheckoutOk c s => let x := cl t c in let y := sv t s in
-      is_phase (c_phase x) PHandle && c_chk x && is_none (c_held x) &&
+      is_phase (c_phase x) PHandle && c_chk x && c_iter x && is_none (c_held x) &&
       s_live y && is_none (s_holder y) && negb (is_login (s_state y)) && (apool cf (s_addr y) =? c_pool x)
-  | CheckoutGiveUp c => let x := cl t c in is_phase (c_phase x) PHandle && c_chk x
+  | CheckoutGiveUp c => let x := cl t c in is_phase (c_phase x) PHandle && c_chk x && negb (c_iter x)
   | QueryDone c s | TxnDone c s | Release c s =>
       is_phase (c_phase (cl t c)) PHandle && holds (c_held (cl t c)) s
   | Data s _ _ => s_live (sv t s)
@@ -168,7 +176,7 @@ Definition enabled (cf : cfg) (t : st) (o : op) : bool :=
   end.
 
 Definition set_cstate (x : client) (s : cstate) : client :=
-  mkC (c_pool x) (c_phase x) (c_chk x) (c_held x) s (c_xact x) (c_query x) (c_err x).
+  mkC (c_pool x) (c_phase x) (c_chk x) (c_iter x) (c_held x) s (c_xact x) (c_query x) (c_err x).
 Definition set_sstate (y : server) (s : sstate) (h : option nat) : server :=
   mkS (s_addr y) (s_seen y) (s_live y) h s (s_xact y) (s_query y) (s_sent y) (s_recv y).
 
@@ -177,11 +185,11 @@ Definition a_add (x : atot) (dx dq ds dr de : nat) : atot :=
 Definition b2n (b : bool) : nat := if b then 1 else 0.
 
 (** The task of client [c] ends ([Drop for Client] runs in all three cases): it leaves [handle()],
-    gives up its server, whose stats are set Idle (client.rs:2169-2171).  [unreg]: whether
-    [stats.disconnect()] ran. *)
+    gives up its server, whose stats are set Idle.  [unreg]: whether [stats.disconnect()] ran — since
+    ca5e3a4 it always does (Drop for Client); [false] is the code before that repair ([exit_panic_old]). *)
 Definition exit_client (t : st) (c : nat) (unreg : bool) (aerr : nat) : st :=
   let x := cl t c in
-  let x' := mkC (c_pool x) PGone false None (c_state x) (c_xact x) (c_query x) (c_err x) in
+  let x' := mkC (c_pool x) PGone false false None (c_state x) (c_xact x) (c_query x) (c_err x) in
   let sv' := match c_held x with
              | Some s => upd (sv t) s (set_sstate (sv t s) SIdle None)
              | None => sv t end in
@@ -193,15 +201,23 @@ Definition exit_client (t : st) (c : nat) (unreg : bool) (aerr : nat) : st :=
 Definition apply (cf : cfg) (t : st) (o : op) : st :=
   match o with
   | Login c p ok =>
-      mkSt (upd (cl t) c (mkC p (if ok then PLogged else PGone) false None CIdle 0 0 0)) (c :: cids t)
+      mkSt (upd (cl t) c (mkC p (if ok then PLogged else PGone) false false None CIdle 0 0 0)) (c :: cids t)
            (sv t) (sids t) (creg t) (sreg t) (at_ t)
   | HandleStart c =>
       let x := cl t c in
-      mkSt (upd (cl t) c (mkC (c_pool x) PHandle false None CIdle (c_xact x) (c_query x) (c_err x))) (cids t)
+      mkSt (upd (cl t) c (mkC (c_pool x) PHandle false false None CIdle (c_xact x) (c_query x) (c_err x))) (cids t)
            (sv t) (sids t) (reg_add c (creg t)) (sreg t) (at_ t)
   | CheckoutStart c =>
       let x := cl t c in
-      mkSt (upd (cl t) c (mkC (c_pool x) (c_phase x) true (c_held x) CWaiting (c_xact x) (c_query x) (c_err x)))
+      mkSt (upd (cl t) c (mkC (c_pool x) (c_phase x) true false (c_held x) CWaiting (c_xact x) (c_query x) (c_err x)))
+           (cids t) (sv t) (sids t) (creg t) (sreg t) (at_ t)
+  | CandidateTry c =>
+      let x := cl t c in
+      mkSt (upd (cl t) c (mkC (c_pool x) (c_phase x) (c_chk x) true (c_held x) CWaiting (c_xact x) (c_query x) (c_err x)))
+           (cids t) (sv t) (sids t) (creg t) (sreg t) (at_ t)
+  | CandidateSkip c =>
+      let x := cl t c in
+      mkSt (upd (cl t) c (mkC (c_pool x) (c_phase x) (c_chk x) false (c_held x) (c_state x) (c_xact x) (c_query x) (c_err x)))
            (cids t) (sv t) (sids t) (creg t) (sreg t) (at_ t)
   | TestServer s =>
       mkSt (cl t) (cids t) (upd (sv t) s (set_sstate (sv t s) STested None)) (sids t) (creg t) (sreg t) (at_ t)
@@ -209,26 +225,26 @@ Definition apply (cf : cfg) (t : st) (o : op) : st :=
       let x := cl t c in
       let r := areplica cf a in
       let stt := if hc && negb r then c_state x else CIdle in
-      mkSt (upd (cl t) c (mkC (c_pool x) (c_phase x) (c_chk x) (c_held x) stt (c_xact x) (c_query x) (c_err x + b2n r)))
+      mkSt (upd (cl t) c (mkC (c_pool x) (c_phase x) (c_chk x) false (c_held x) stt (c_xact x) (c_query x) (c_err x + b2n r)))
            (cids t) (sv t) (sids t) (creg t) (sreg t)
            (upd (at_ t) a (a_add (at_ t a) 0 0 0 0 (b2n (negb hc) + b2n r)))
   | CheckoutOk c s =>
       let x := cl t c in
-      mkSt (upd (cl t) c (mkC (c_pool x) (c_phase x) false (Some s) CActive (c_xact x) (c_query x) (c_err x)))
+      mkSt (upd (cl t) c (mkC (c_pool x) (c_phase x) false false (Some s) CActive (c_xact x) (c_query x) (c_err x)))
            (cids t) (upd (sv t) s (set_sstate (sv t s) SActive (Some c))) (sids t) (creg t) (sreg t) (at_ t)
   | CheckoutGiveUp c =>
       let x := cl t c in
-      mkSt (upd (cl t) c (mkC (c_pool x) (c_phase x) false (c_held x) CIdle (c_xact x) (c_query x) (c_err x)))
+      mkSt (upd (cl t) c (mkC (c_pool x) (c_phase x) false false (c_held x) CIdle (c_xact x) (c_query x) (c_err x)))
            (cids t) (sv t) (sids t) (creg t) (sreg t) (at_ t)
   | QueryDone c s =>
       let x := cl t c in let y := sv t s in
-      mkSt (upd (cl t) c (mkC (c_pool x) (c_phase x) (c_chk x) (c_held x) (c_state x) (c_xact x) (S (c_query x)) (c_err x)))
+      mkSt (upd (cl t) c (mkC (c_pool x) (c_phase x) (c_chk x) (c_iter x) (c_held x) (c_state x) (c_xact x) (S (c_query x)) (c_err x)))
            (cids t)
            (upd (sv t) s (mkS (s_addr y) (s_seen y) (s_live y) (s_holder y) (s_state y) (s_xact y) (S (s_query y)) (s_sent y) (s_recv y)))
            (sids t) (creg t) (sreg t) (upd (at_ t) (s_addr y) (a_add (at_ t (s_addr y)) 0 1 0 0 0))
   | TxnDone c s =>
       let x := cl t c in let y := sv t s in
-      mkSt (upd (cl t) c (mkC (c_pool x) (c_phase x) (c_chk x) (c_held x) (c_state x) (S (c_xact x)) (c_query x) (c_err x)))
+      mkSt (upd (cl t) c (mkC (c_pool x) (c_phase x) (c_chk x) (c_iter x) (c_held x) (c_state x) (S (c_xact x)) (c_query x) (c_err x)))
            (cids t)
            (upd (sv t) s (mkS (s_addr y) (s_seen y) (s_live y) (s_holder y) (s_state y) (S (s_xact y)) (s_query y) (s_sent y) (s_recv y)))
            (sids t) (creg t) (sreg t) (upd (at_ t) (s_addr y) (a_add (at_ t (s_addr y)) 1 0 0 0 0))
@@ -239,7 +255,7 @@ Definition apply (cf : cfg) (t : st) (o : op) : st :=
            (sids t) (creg t) (sreg t) (upd (at_ t) (s_addr y) (a_add (at_ t (s_addr y)) 0 0 n m 0))
   | Release c s =>
       let x := cl t c in
-      mkSt (upd (cl t) c (mkC (c_pool x) (c_phase x) (c_chk x) None CIdle (c_xact x) (c_query x) (c_err x)))
+      mkSt (upd (cl t) c (mkC (c_pool x) (c_phase x) (c_chk x) (c_iter x) None CIdle (c_xact x) (c_query x) (c_err x)))
            (cids t) (upd (sv t) s (set_sstate (sv t s) SIdle None)) (sids t) (creg t) (sreg t) (at_ t)
   | ExitOk c => exit_client t c true 0
   | ExitErr c srvfail =>
@@ -247,7 +263,7 @@ Definition apply (cf : cfg) (t : st) (o : op) : st :=
         (match c_held (cl t c) with
          | Some s => b2n (srvfail && areplica cf (s_addr (sv t s)))
          | None => 0 end)
-  | ExitPanic c => exit_client t c false 0
+  | ExitPanic c => exit_client t c true 0
   | ServerConnect s a =>
       mkSt (cl t) (cids t) (upd (sv t) s (mkS a true true None SLogin 0 0 0 0)) (s :: sids t)
            (creg t) (s :: reg_del s (sreg t)) (at_ t)
@@ -337,17 +353,16 @@ Fixpoint run_samples (cf : cfg) (np : nat) (t : st) (segs : list (list op)) :=
   | ops :: r => let t' := run_from cf t ops in observe cf np t' :: run_samples cf np t' r
   end.
 
-(* ---------------------------------------------------------------- known-defect classes *)
+(* ---------------------------------------------------------------- the code before its repairs (regression) *)
 
-(** A client task that panics ([ExitPanic] executed): its row is never removed. *)
-Definition is_panic (o : op) : bool := match o with ExitPanic _ => true | _ => false end.
-Definition known_c18 (ops : list op) : bool := existsb is_panic ops.
-
-(** A candidate failure that resets the client's state to Idle although the checkout goes on with the
-    next candidate (pool.rs:817 / ban_error): until the checkout ends the client is shown idle. *)
-Definition is_stale_fail (cf : cfg) (o : op) : bool :=
-  match o with CandidateFail _ a hc => negb (hc && negb (areplica cf a)) | _ => false end.
-Definition known_c18_wait (cf : cfg) (ops : list op) : bool := existsb (is_stale_fail cf) ops.
+(** Before /repo ca5e3a4 a panic skipped every [stats.disconnect()]: the row stayed. *)
+Definition exit_panic_old (t : st) (c : nat) : st := exit_client t c false 0.
+(** Before /repo b38aae6 [waiting()] ran once, before the candidate loop: a later iteration started in
+    whatever state the failed candidate had left. *)
+Definition candidate_try_old (t : st) (c : nat) : st :=
+  let x := cl t c in
+  mkSt (upd (cl t) c (mkC (c_pool x) (c_phase x) (c_chk x) true (c_held x) (c_state x) (c_xact x) (c_query x) (c_err x)))
+       (cids t) (sv t) (sids t) (creg t) (sreg t) (at_ t).
 
 (* ---------------------------------------------------------------- specification vocabulary *)
 
